@@ -22,7 +22,13 @@ CASE_TYPE = "C19.Corr.case"
 RUNNER = "C19.Corr.run"
 FINDING_CLASSES = {1: "C19-F1", 2: "C19-F2", 3: "C19-F3", 4: "C19-F4", 5: "C19-F5"}
 RULE = ("histories of cache / logout operations against one real Saml2Client per case: (a) complete enumeration of the "
-        "expiry boundary table not_on_or_after in {0, now-1, now, now+1} x check flag x read operation; (b) complete "
+        "expiry boundary table not_on_or_after in {0, now-1, now, now+1} x check flag x read operation; (a') the expiry "
+        "time a Response hands to the cache, complete: Conditions/@NotOnOrAfter x SessionNotOnOrAfter, each in {absent, "
+        "passed, now, now+1, +100, +200} (every order of the two, equal, absent; a passed time => refused, nothing stored) "
+        "x every read operation at t and t+1 of every time in play, then 6 x 6 such pairs in sequence (a second Response "
+        "replacing the time of the same subject/issuer; two issuers of one subject with different times); (a'') seeded "
+        "histories of Responses / logins / resets / reads with the clock advanced onto a stored time or one second past "
+        "it; (b) complete "
         "enumeration of logout flows over every ordered world of 1 or 2 IdPs out of 9 SLO-endpoint kinds x 3 preferred-"
         "binding orders (quick tier: order SRP complete, a seeded third of the worlds for the two other orders) x every "
         "answer order, each followed by a duplicate answer, an unknown InResponseTo, an answer from "
@@ -35,7 +41,18 @@ RULE = ("histories of cache / logout operations against one real Saml2Client per
 TRUSTED = ["virtual clock behind saml2.time_util (harness/env.py VClock)",
            "stub SOAP transport replacing Saml2Client.send; unsigned LogoutResponse / LogoutRequest templates in harness/c19.py",
            "xmlsec1 stand-in + renderer for the Responses fed through parse_authn_request_response",
-           "abstraction of return values and client state in harness/c19.py"]
+           "abstraction of return values and client state in harness/c19.py",
+           "source tie (translator v2, harness/py2coq2.py + Base/Py2.v; trusted base in notes/translator_v2.md: aliasing, "
+           "object truthiness = has fields, exceptions = class names): time_util.before, time_util.after, Cache.get, "
+           "Cache.active, Cache.entities, Cache.delete, Population.stale_sources_for_person, "
+           "Population.add_information_about_person, AuthnResponse.session_info, Saml2Client.is_logged_in are "
+           "re-translated from the current text of saml2/{time_util,cache,population,response,client}.py on every run "
+           "(coq/gen/C19Src2.v) and proved equal to the model functions in C19/Source2.v (c19_source2_*). Trusted there: "
+           "the encodings (Cache / Population / AuthnResponse / Saml2Client as objects with exactly the attributes the "
+           "code reads; Cache._db as dict of dicts of (int, dict) pairs; struct_time = epoch seconds), ident.code / "
+           "ident.decode as injective coding of subjects (hypothesis cache_encoding_ok), and that Cache.set / "
+           "Cache.get_identity / AuthnResponse.issuer / authn_info (not translatable or external) are arbitrary functions "
+           "resp. behave as the hypotheses of c19_source2_is_logged_in say"]
 ASSUMPTIONS = ["NameIDs and entity ids are mapped to small numbers; distinctness of code(name_id) for the five NameIDs is "
                "checked on the implementation side only (C18 proves code/decode)",
                "message ids are numbered in order of first appearance in Saml2Client.state",
@@ -160,6 +177,86 @@ def exn_name(e):
     return EXN.get(type(e).__name__, "Other:" + type(e).__name__)
 
 
+# ---------------------------------------------------------------------------- translator v2 (source tie)
+SRC2_FUNCTIONS = ["time_util.before", "time_util.after", "Cache.get", "Cache.active", "Cache.entities", "Cache.delete",
+                  "Population.stale_sources_for_person", "Population.add_information_about_person",
+                  "AuthnResponse.session_info", "Saml2Client.is_logged_in"]
+
+
+def src2_items():
+    """Translation specs (translator v2) of the decision functions behind C19.Model's cache layer.  The clock
+    (`time.gmtime()`), the time parser, `ident.code` / `ident.decode`, the accessor methods of AuthnResponse and
+    `Cache.set` / `Cache.get_identity` (not translatable: see notes/C19.md) are extra arguments; struct_time values
+    are represented by their epoch seconds (same order).  Calls of translated functions are linked to their
+    translation (after -> before, Cache.get -> after, Cache.active -> before, stale_sources_for_person ->
+    Cache.entities / Cache.active)."""
+    import os
+
+    sdir = os.path.join(env.SRC, "saml2")
+    exc = {"SAMLError": ["Exception"], "ToOld": ["SAMLError", "Exception"], "TooOld": ["ToOld", "SAMLError", "Exception"],
+           "CacheError": ["SAMLError", "Exception"], "StatusError": ["SAMLError", "Exception"],
+           "StatusInvalidAuthnResponseStatement": ["StatusError", "SAMLError", "Exception"]}
+    clock = [("now_", "pyval"), ("parse_time", "pyval -> pyval")]
+    tcalls = {"time.gmtime": lambda a: a[0] if a else "now_", "str_to_time": lambda a: "(parse_time %s)" % a[0]}
+    code_ = ("code_", "pyval -> pyval")
+    code_call = {"code": lambda a: "(code_ %s)" % a[0]}
+    return [
+        (os.path.join(sdir, "time_util.py"), "before",
+         {"name": "src2_before", "params": ["point"], "extra_params": clock, "calls": tcalls}),
+        (os.path.join(sdir, "time_util.py"), "after",
+         {"name": "src2_after", "params": ["point"], "extra_params": clock,
+          "calls": dict(tcalls, before=lambda a: "(src2_before now_ parse_time %s)" % a[0])}),
+        (os.path.join(sdir, "cache.py"), "Cache.get",
+         {"name": "src2_cache_get", "params": ["self", "name_id", "entity_id", "check_not_on_or_after"], "exc_parents": exc,
+          "extra_params": clock + [code_, ("decode_", "pyval -> pyval")],
+          "calls": dict(code_call, decode=lambda a: "(decode_ %s)" % a[0],
+                        **{"time_util.after": lambda a: "(src2_after now_ parse_time %s)" % a[0]})}),
+        (os.path.join(sdir, "cache.py"), "Cache.active",
+         {"name": "src2_cache_active", "params": ["self", "name_id", "entity_id"], "exc_parents": exc,
+          "extra_params": clock + [code_],
+          "calls": dict(code_call, **{"time_util.not_on_or_after": lambda a: "(src2_before now_ parse_time %s)" % a[0]})}),
+        (os.path.join(sdir, "cache.py"), "Cache.entities",
+         {"name": "src2_cache_entities", "params": ["self", "name_id"], "exc_parents": exc, "extra_params": [code_],
+          "calls": code_call}),
+        (os.path.join(sdir, "cache.py"), "Cache.delete",
+         {"name": "src2_cache_delete", "params": ["self", "name_id"], "exc_parents": exc, "returns_state": ["self"],
+          "extra_params": [code_, ("sync_", "pyval -> pyval")],
+          "calls": dict(code_call, **{"self._db.sync": lambda a: '(sync_ (p2_attr v_self "_db"))'})}),
+        (os.path.join(sdir, "population.py"), "Population.stale_sources_for_person",
+         {"name": "src2_stale_sources", "params": ["self", "name_id", "sources"], "exc_parents": exc,
+          "extra_params": clock + [code_],
+          "calls": {"self.cache.entities": lambda a: '(src2_cache_entities code_ (p2_attr v_self "cache") %s)' % a[0],
+                    "self.cache.active":
+                        lambda a: '(src2_cache_active now_ parse_time code_ (p2_attr v_self "cache") %s %s)' % tuple(a)}}),
+        (os.path.join(sdir, "population.py"), "Population.add_information_about_person",
+         {"name": "src2_add_information", "params": ["self", "session_info"], "exc_parents": exc,
+          "extra_params": [("set_", "pyval -> pyval -> pyval -> pyval -> pyval -> pyval")],
+          "calls": {"self.cache.set": lambda a: '(set_ (p2_attr v_self "cache") %s %s %s %s)' % tuple(a)}}),
+        (os.path.join(sdir, "response.py"), "AuthnResponse.session_info",
+         {"name": "src2_session_info", "params": ["self"], "exc_parents": exc,
+          "extra_params": [("issuer_", "pyval -> pyval"), ("authn_info_", "pyval -> pyval"), ("authz_info_", "pyval -> pyval")],
+          "calls": {"self.issuer": lambda a: "(issuer_ v_self)", "self.authn_info": lambda a: "(authn_info_ v_self)",
+                    "self.authz_decision_info": lambda a: "(authz_info_ v_self)"}}),
+        (os.path.join(sdir, "client.py"), "Saml2Client.is_logged_in",
+         {"name": "src2_is_logged_in", "params": ["self", "name_id"], "exc_parents": exc,
+          "extra_params": [("get_identity_", "pyval -> pyval -> pyval")],
+          "calls": {"self.users.get_identity": lambda a: '(get_identity_ (p2_attr v_self "users") %s)' % a[0]}}),
+    ]
+
+
+def regenerate_tables(ctx):
+    """Translator v2: the functions of SRC2_FUNCTIONS as they read NOW -> coq/gen/C19Src2.v (C19/Source2.v proves each
+    equal to the model function it mirrors; Property.v re-states the theorems as c19_source2_*)."""
+    import os
+
+    from harness import common, py2coq2
+
+    info = py2coq2.regenerate(os.path.join(common.GEN, "C19Src2.v"), src2_items())
+    return {"obligations": info["obligations"], "discharged": info["discharged"],
+            "untranslatable": list(info["untranslatable"]), "translated": list(info["translated"]),
+            "changed": bool(info["changed"]), "file": "coq/gen/C19Src2.v"}
+
+
 # ---------------------------------------------------------------------------- running one history
 class Runner:
     def __init__(self, case):
@@ -193,7 +290,10 @@ class Runner:
         return _Resp(200, soap_envelope(logout_response_xml(rid, e, a == "ok", None, CLOCK.now)))
 
     def issuer_idx(self, e):
-        return self.ent_idx.get(e, 99)
+        try:
+            return self.ent_idx.get(e, 99)
+        except TypeError:      # not even hashable: certainly not an entity id of this world
+            return 99
 
     def number_rids(self):
         for k in self.sp.state:
@@ -203,6 +303,13 @@ class Runner:
                 self.rid_real[n] = k
 
     def view(self):
+        """total: a view that cannot be taken (the accessors raise) is a view nobody can agree with"""
+        try:
+            return self._view()
+        except Exception:  # noqa
+            return {"subjects": [[99, [99]]], "logged": [99], "pending": []}
+
+    def _view(self):
         sp = self.sp
         subjects = []
         for n in sp.users.subjects():
@@ -545,6 +652,105 @@ def boundary_histories():
     return cases
 
 
+EXP_OFFS = (None, -1, 0, 1, 100, 200)
+EXP_PAIRS = ((100, None), (None, 100), (200, 100), (100, 200), (100, 100), (None, None))
+
+
+def _abs(t0, d):
+    return None if d is None else t0 + d
+
+
+def _reads(s, iss, full=False):
+    ops = [["GetInfoFrom", s, i, True] for i in iss] + [["GetIdentity", s, [], True], ["Stale", s, []]]
+    if full:
+        ops += [["GetInfoFrom", s, i, False] for i in iss] + [["GetIdentity", s, list(iss), True],
+                                                              ["GetIdentity", s, [], False], ["Stale", s, list(iss)]]
+    return ops
+
+
+def response_expiry_histories():
+    """(a') the expiry time a Response hands to the cache, complete: Conditions/@NotOnOrAfter x
+    AuthnStatement/@SessionNotOnOrAfter, each absent / already passed / now / now+1 / +100 / +200 (every order
+    of the two times, equal times, one or both absent, a passed time => the Response is refused and nothing is
+    stored), read by every read operation at every boundary (t, t+1 for each time in play).  Then the same pairs
+    in SEQUENCE on long-lived state: a second Response for the same (subject, issuer) replaces the first one's
+    time (earlier or later), and two issuers of one subject hold different times (get_identity merges only what
+    has not expired, is_logged_in as long as one of them lasts)."""
+    cases = []
+    now = T0
+    for cd in EXP_OFFS:
+        for sd in EXP_OFFS:
+            ops = [["Accept", 0, 0, _abs(now, cd), _abs(now, sd), 1, "good"]] + _reads(0, [0], True)
+            for dt in (1, 99, 1, 99, 1):
+                ops += [["Tick", dt]] + _reads(0, [0], dt == 1)
+            cases.append(mk("SRP", ["R"], [0], ops, "response-expiry"))
+    for a in EXP_PAIRS:
+        for b in EXP_PAIRS:
+            # subject 0: issuer 0 twice (b replaces a at +50); subject 1: issuer 0 with a, issuer 1 with b
+            ops = [["Accept", 0, 0, _abs(now, a[0]), _abs(now, a[1]), 1, "good"],
+                   ["Accept", 1, 0, _abs(now, a[0]), _abs(now, a[1]), 2, "good"],
+                   ["Accept", 1, 1, _abs(now, b[0]), _abs(now, b[1]), 3, "good"],
+                   ["Tick", 50], ["Accept", 0, 0, _abs(now, b[0]), _abs(now, b[1]), 4, "good"]]
+            ops += _reads(0, [0]) + _reads(1, [0, 1])
+            for dt in (50, 1, 99, 1):
+                ops += [["Tick", dt]] + _reads(0, [0]) + _reads(1, [0, 1], dt == 1)
+            cases.append(mk("SRP", ["R", "P"], [0, 1], ops, "response-expiry-seq"))
+    return cases
+
+
+def expiry_random_history(rng):
+    """(a'') seeded histories of Responses / direct logins / resets / clock advances / reads only: 2-3 subjects,
+    2-3 issuers, times drawn around the clock (passed, now, soon, late) independently for the two attributes, the
+    clock advanced preferably ONTO a stored time or one second past it"""
+    nk = rng.randint(2, 3)
+    ns = rng.randint(2, 3)
+    idps = rng.sample(NOSOAP_KINDS, nk)
+    subjects = rng.sample(range(len(NAMEIDS)), ns)
+    now = T0
+    times = []
+    ops = []
+    tok = 1
+    real = 0
+
+    def when():
+        return rng.choice([None, None, now - 1, now, now + 1, now + rng.randint(2, 40), now + rng.randint(41, 90), now + 500])
+
+    for _ in range(rng.randint(12, 30)):
+        x = rng.random()
+        s, i = rng.randrange(ns), rng.randrange(nk)
+        if x < 0.2 and real < 6:
+            cn, sn = when(), when()
+            real += 1
+            ops.append(["Accept", s, i, cn, sn, tok, rng.choice(["good"] * 6 + ["badsig", "wrongdest"])])
+            times += [t for t in (cn, sn) if t is not None and t >= now]
+            tok += 1
+        elif x < 0.28:
+            t = when()
+            ops.append(["Login", s, i, 0 if t is None else t, tok])
+            times += [t] if t is not None and t >= now else []
+            tok += 1
+        elif x < 0.32:
+            ops.append(["Reset", s, i])
+        elif x < 0.55:
+            ahead = sorted(set(t for t in times if t >= now))
+            if ahead and rng.random() < 0.75:
+                t = ahead[0] if rng.random() < 0.7 else rng.choice(ahead)
+                dt = t - now + rng.choice([0, 1])
+            else:
+                dt = rng.choice([0, 1, 2, 30])
+            ops.append(["Tick", dt])
+            now += dt
+        else:
+            y = rng.random()
+            if y < 0.4:
+                ops.append(["GetInfoFrom", s, i, rng.random() < 0.85])
+            elif y < 0.8:
+                ops.append(["GetIdentity", s, rng.choice([[], [], [i], list(range(nk))]), rng.random() < 0.85])
+            else:
+                ops.append(["Stale", s, rng.choice([[], [i], list(range(nk))])])
+    return mk(rng.choice(PREFS), idps, subjects, ops, "random-expiry")
+
+
 def flow_histories(prefs):
     """(b) logout flows over every ordered world of 1 or 2 IdPs, every answer order"""
     cases = []
@@ -755,6 +961,7 @@ def random_history(rng, idx):
 def generate(ctx):
     rng = ctx.rng
     cases = boundary_histories()
+    cases += response_expiry_histories()
     cases += flow_histories(PREFS if ctx.thorough else ["SRP"])
     if not ctx.thorough:
         # the other preference orders on a seeded third of the worlds
@@ -766,6 +973,12 @@ def generate(ctx):
     cases += request_histories()
     for k in range(3000 if ctx.thorough else 300):
         cases.append(random_history(rng, k))
+    # a generator of its own (derived seed): the cases above stay what they were
+    import random as _random
+
+    erng = _random.Random(ctx.seed * 7919 + 19)
+    for k in range(400 if ctx.thorough else 40):
+        cases.append(expiry_random_history(erng))
     return cases
 
 
